@@ -216,8 +216,10 @@ def label_check(case):
 
 # ------------------------------------------------------------------ (d2) outside labels anywhere on the probe: the inside channels are still destriped
 def scatter_cases(tier, seed):
-    pats = [[200], [100, 250], [0], [383], [5, 6, 7, 300], list(range(360, 384)) + [150], list(range(0, 10)) + [380]]
-    return [(tab, variant, pi) for tab in ("NP1", "NP2") for variant in ("kfilt", "car") for pi in range(len(pats))], pats
+    pats = [[200], [100, 250], [0], [383], [5, 6, 7, 300], list(range(360, 384)) + [150], list(range(0, 10)) + [380],
+            # (label 3 positions, dead positions, noisy positions)
+            ([], [100], []), ([], [23], [200]), ([], [0, 191, 192, 383], []), (list(range(370, 384)), [40, 41], [300])]
+    return [(tab, variant, pi) for tab in ("NP1", "NP2", "NPultra") for variant in ("kfilt", "car") for pi in range(len(pats))], pats
 
 
 def _scatter_cases(tier, seed):
@@ -234,20 +236,28 @@ def scatter_check(case):
     x = skewed(S, h["sample_shift"], n)
     x = x / np.sqrt(np.mean(x[0] ** 2)) * 100e-6
     labels = np.zeros(384)
-    labels[pats[pi]] = 3
+    if isinstance(pats[pi], tuple):
+        labels[pats[pi][0]] = 3
+        labels[pats[pi][1]] = 1
+        labels[pats[pi][2]] = 2
+        x[pats[pi][1]] = 0.0                                            # a dead channel records nothing
+        x[pats[pi][2]] += 80e-6 * rng.standard_normal((len(pats[pi][2]), n))  # a noisy one its own noise
+    else:
+        labels[pats[pi]] = 3
     out = voltage.destripe(x.copy(), fs, h=h, neuropixel_version=_version(tab), k_filter=(variant == "kfilt"), channel_labels=labels.copy())
     sos = scipy.signal.butter(N=3, Wn=300 / fs * 2, btype="highpass", output="sos")
     ref = scipy.signal.sosfiltfilt(sos, x)
     inside = labels != 3
-    # per channel attenuation on the inside channels
+    # per channel attenuation on the inside channels (relative to the disturbance as recorded on a good channel)
     num = np.sqrt(np.mean(out[inside] ** 2, axis=1))
-    den = np.sqrt(np.mean(ref[inside] ** 2, axis=1))
+    den = np.full(int(inside.sum()), np.sqrt(np.mean(ref[np.flatnonzero(labels == 0)[0]] ** 2)))
     db = 20 * np.log10(num / den + 1e-300)
     v = []
     if np.max(db) > -40:
         ch = np.flatnonzero(inside)[int(np.argmax(db))]
-        v.append(("labels:scattered-outside", "%s %s outside-brain labels at %r: inside channel %d keeps the common disturbance (%.1f dB); %d inside channels above -40 dB"
-                  % (tab, variant, pats[pi][:6], ch, float(np.max(db)), int(np.sum(db > -40)))))
+        key = "labels:bad-channels" if isinstance(pats[pi], tuple) else "labels:scattered-outside"
+        v.append((key, "%s %s labels %r: inside channel %d (label %d) keeps the common disturbance (%.1f dB); %d inside channels above -40 dB"
+                  % (tab, variant, pats[pi] if isinstance(pats[pi], tuple) else pats[pi][:6], ch, labels[ch], float(np.max(db)), int(np.sum(db > -40)))))
     return Res(v, o=(tab, variant), tr=1)
 
 
